@@ -13,6 +13,22 @@ NA = {
 PENDING = "check not built yet (planned, DESIGN.md section 6)"
 
 CHECKS = {
+    "C07": dict(
+        category="proof",
+        text="Frame and purity contracts of main.main_with_args, decided by a function-by-function effect inference over the "
+             "real AST (effects/roots.py): for every module-level and class-level mutable root (45 at present) one of: no "
+             "mutation site reachable from main_with_args; rebound to a fresh value on every run before use; only "
+             "unconditional keyed writes that never read prior content and whose keys are never enumerated; a temporary "
+             "rebinding restored in a finally clause. Plus: no reachable read of time/environment/host/random/pid/"
+             "directory listings, no id()/hash() flowing to output, no set iteration. Ten roots failed on the original tree; "
+             "four genuine defects were repaired. Thorough tier: bounded run-time frame check (in-process sequences of "
+             "libraries vs fresh processes).",
+        design_ref="6/C07, Appendix C",
+        note="Sound under the aliasing assumptions of DESIGN.md section 8 (name-based alias closure; reflective writes only "
+             "at visible setattr sites). J3 roots carry the listed assumption about stale keys; debug dumps excluded. "
+             "Hash-seed independence follows from the absence of set iteration plus CPython dict ordering.",
+        technique="contract-based verification of frame/purity (modifies) contracts by effect inference over the real code",
+    ),
     "C14": dict(
         category="proof",
         text="Partial, mechanisms only. Deductive: the --option merge of main.main_with_args (slice): every name=value is split "
@@ -144,7 +160,7 @@ def main():
                 "thorough_cmd": "./check %s --tier thorough" % p,
                 "evidence_file": "evidence/%s.json" % p,
                 "replay_cmd_template": "./check %s --replay {path}" % p,
-                "engine": "pyvc" if c["category"] == "proof" else "tables",
+                "engine": "effects" if p == "C07" else ("pyvc" if c["category"] == "proof" else "tables"),
                 "level_claimed": {"category": c["category"], "text": c["text"], "design_ref": c["design_ref"]},
                 "level_note": c["note"],
                 "technique": c["technique"],
@@ -162,6 +178,8 @@ def main():
             "add_only": True,
         },
         "engines": [
+            {"name": "effects", "path": "effects/", "serves_properties": ["C07"],
+             "kind_free_text": "effect checker: modifies-contracts over module/class-level mutable roots, bottom-up effect summaries per function"},
             {"name": "tables", "path": "tables/", "serves_properties": ["C04", "C05", "C06", "C10"],
              "kind_free_text": "table-invariant evaluator: closed representation invariants over the constant tables the real modules build, decided exhaustively on every run"},
             {"name": "pyvc", "path": "pyvc/", "serves_properties": sorted(CHECKS),
